@@ -57,6 +57,9 @@ var importPath = map[string]string{
 
 func main() {
 	repo := flag.String("repo", "/repo", "olric working tree")
+	// where the harness module's replace directive points; when the working tree to be checked is a
+	// different directory (a scratch worktree), every source file of it is mapped over the module's
+	module := flag.String("module", "/repo", "directory the go.mod replace directive names")
 	out := flag.String("out", "", "scratch output directory")
 	extra := flag.String("merge", "", "overlay json (flat map) to merge, e.g. the runtime overlay")
 	noYield := flag.Bool("noyield", false, "do not insert yields")
@@ -151,6 +154,9 @@ func main() {
 			}
 		}
 		if !changed {
+			if *module != *repo {
+				replace[filepath.Join(*module, rel)] = path
+			}
 			return nil
 		}
 		fixImports(f, used)
@@ -167,12 +173,28 @@ func main() {
 			return fmt.Errorf("%s: %v", rel, err)
 		}
 		w.Close()
-		replace[path] = dst
+		replace[filepath.Join(*module, rel)] = dst
 		nfiles++
 		return nil
 	})
 	if err != nil {
 		die(err)
+	}
+	if *module != *repo {
+		// source files the module directory has and the checked tree has not are masked
+		filepath.Walk(*module, func(path string, info os.FileInfo, err error) error {
+			if err != nil || info.IsDir() || !strings.HasSuffix(path, ".go") || strings.HasSuffix(path, "_test.go") {
+				return nil
+			}
+			rel, _ := filepath.Rel(*module, path)
+			if strings.HasPrefix(rel, ".git") {
+				return nil
+			}
+			if _, err := os.Stat(filepath.Join(*repo, rel)); err != nil {
+				replace[path] = ""
+			}
+			return nil
+		})
 	}
 	if *acc != "" {
 		ents, err := os.ReadDir(*acc)
@@ -188,7 +210,7 @@ func main() {
 			if parts[0] == "root" {
 				dir = strings.Join(parts[1:len(parts)-1], "/")
 			}
-			replace[filepath.Join(*repo, dir, parts[len(parts)-1])] = filepath.Join(*acc, e.Name())
+			replace[filepath.Join(*module, dir, parts[len(parts)-1])] = filepath.Join(*acc, e.Name())
 		}
 	}
 	ob, _ := json.MarshalIndent(map[string]any{"Replace": replace}, "", " ")
